@@ -295,6 +295,18 @@ def register(lib):
         return SBool(b)
     E['numpy.all'] = np_all
 
+    def np_full(I, shape, fill_value, dtype=None, **kw):
+        shape = untag(shape)
+        if not isinstance(shape, (tuple, list)):
+            shape = (shape,)
+        shape = tuple(check_dim(d, 'shape') for d in shape)
+        dt = canon_dtype(dtype) if dtype is not None else ('float64' if is_floatlike(untag(fill_value)) else 'int64')
+        v = untag(fill_value)
+        if dt in ('int32', 'int64', 'int16'):
+            v = NP.wrap_int(v, int(dt[3:]), signed=True) if is_sym(v) or isinstance(v, int) else v
+        return SArray(shape, lambda idx, v=v: v, dt)
+    E['numpy.full'] = np_full
+
     def np_count_nonzero(I, a, axis=None):
         # weak model (AX-NP-COUNT): some integer between 0 and the number of elements
         a = untag(a)
